@@ -1511,6 +1511,192 @@ def zvode_part(ctx, rng, only=None):
     ctx.sample({"zvode_case": cases[0], "impl_views": [list(map(str, x)) for x in runs[0][0][:4]]})
 
 
+# ------------------------------------- lsoda window (_back / _front)
+LS_HEADER = ("From Coq Require Import List ZArith Bool.\nImport ListNotations.\n"
+             "From QV Require Import Model.C11_lsoda.\nOpen Scope Z_scope.\n")
+SITE_LSODA = "scipy_integrator.IntegratorScipylsoda._backstep"
+SITE_LSODA_PROBE = "scipy_integrator.IntegratorScipylsoda._one_step"
+
+
+def run_lsoda_impl(case):
+    """Drive a real IntegratorScipylsoda through set_state / mcstep; the two
+    float expressions the source evaluates (front - rwork[11], the first
+    target of _one_step) and lsoda's (tcur, hu, hcur) after the call are the
+    oracle inputs of the model."""
+    import scipy.linalg
+    from qutip import Qobj, basis
+    from qutip.solver.sesolve import SESolver
+    from qutip.solver.integrator.integrator import IntegratorException
+    I = SESolver(Qobj(RK_H), options={"method": "lsoda"})._integrator
+    y0 = basis(3, 0).data
+    views, oracle, concrete, bad = [], [], [], []
+    t0, start_last = None, None
+    for op in case["ops"]:
+        ode = I._ode_solver
+        rw = getattr(ode._integrator, "rwork", np.zeros(20))
+        f0 = getattr(I, "_front", 0.0)
+        b0 = I._back[0] if I._is_set else 0.0
+        t_start = float(ode.t)
+        if op[0] == "rel":
+            kind, x = op[1], op[2]
+            p_t = start_last if start_last is not None else t_start
+            tt = {"in": b0 + x * (f0 - b0), "front": f0, "beyond": f0 + x, "behind": b0 - x,
+                  "same": t_start, "prev": p_t + x * (t_start - p_t), "back": b0}[kind]
+            if kind in ("in", "prev", "back") and not (f0 - b0 > 1e-8 * max(1.0, abs(f0))):
+                # windows at rounding scale (first steps after a reset are ~1e-14
+                # long) are outside what exact bookkeeping can say: move on
+                tt = f0 + 0.25
+            op = ["mc", float(tt), op[3] if len(op) > 3 else 1.0]
+        if op[0] == "mc" and len(op) > 2 and op[2] != 1.0 and I._is_set:
+            rw[11] = rw[11] * op[2]       # lsoda decides to try a smaller step next
+        concrete.append(op)
+        raised, tout = False, None
+        fd = p = 0.0
+        if op[0] == "mc" and I._is_set:
+            t = float(op[1])
+            fd = float(f0 - rw[11])
+            p = float(min(f0 + (rw[11] / 100 + max(1e-15, 4 * np.spacing(abs(t_start)))), t))
+        try:
+            if op[0] == "set":
+                I.set_state(float(op[1]), y0)
+                t0, tout, start_last = float(op[1]), float(op[1]), None
+            else:
+                tout, y = I.mcstep(float(op[1]))
+                exact = scipy.linalg.expm(-1j * RK_H * (tout - t0))[:, :1]
+                if np.abs(y.to_array() - exact).max() > 1e-4:
+                    bad.append("wrong-state: mcstep(%r) returned time %r with a state that is "
+                               "not the solution there (validation, tol 1e-4)" % (op[1], tout))
+                start_last = t_start
+        except IntegratorException as e:
+            raised = True
+            msg = str(e)
+            if "behind the integration limit" in msg:
+                if t0 is not None and start_last is not None and \
+                        min(start_last, t_start) <= float(op[1]) <= t_start:
+                    bad.append("reachable-time-refused: mcstep(%r) raised although the last call "
+                               "started at %r" % (op[1], start_last))
+            elif "not initialted" not in msg:
+                bad.append("lsoda-failure: mcstep(%r) raised '%s' (window %r..%r, ode at %r)" % (
+                    op[1], msg[:40], b0, f0, t_start))
+        except AttributeError:
+            raised = True
+        rw = getattr(ode._integrator, "rwork", np.zeros(20))
+        views.append((raised, bool(I._is_set), I._back[0] if I._is_set else 0.0,
+                      getattr(I, "_front", 0.0), float(ode.t)))
+        oracle.append((float(op[1]), fd, p, (float(rw[12]), float(rw[10]), float(rw[11]))))
+        if raised and any(b.startswith("lsoda-failure") for b in bad):
+            break
+    case["ops"] = concrete
+    return views, oracle, bad
+
+
+def gen_lsoda_case(rng):
+    ops = []
+    for _ in range(rng.choice([1, 2])):
+        ops.append(["set", rng.randint(-4, 4) / 8.0])
+        for _ in range(rng.choice([4, 8, 14])):
+            r = rng.random()
+            shrink = rng.choice([1.0, 1.0, 1.0, 0.25])
+            if r < 0.35:
+                ops.append(["rel", "beyond", rng.choice([1e-3, 0.02, 0.25, 1.0]), 1.0])
+            elif r < 0.7:
+                ops.append(["rel", "in", rng.choice([0.1, 0.25, 0.5, 0.9, 1.0]), shrink])
+            elif r < 0.78:
+                ops.append(["rel", "same", 0, 1.0])
+            elif r < 0.86:
+                ops.append(["rel", "behind", rng.choice([1e-4, 0.5]), 1.0])
+            elif r < 0.93:
+                ops.append(["rel", "prev", rng.choice([0.5, 1.0]), shrink])
+            else:
+                ops.append(["rel", "back", 0, shrink])
+    return {"ops": ops}
+
+
+def lsoda_part(ctx, rng, only=None):
+    from fractions import Fraction
+    ncases = 40 if ctx.quick else 400
+    cases = [{"ops": [["set", 0.0]] + [["rel", "beyond", 1.0, 1.0]] * 25
+              + [["rel", "back", 0, 0.25], ["rel", "beyond", 1.0, 1.0], ["rel", "in", 0.5, 1.0]]},
+             {"ops": [["set", -0.125], ["mc", 0.125, 1.0], ["mc", 0.125, 1.0]]}]
+    if only is not None:
+        cases, ncases = [only], 1
+    while len(cases) < ncases:
+        cases.append(gen_lsoda_case(rng))
+    runs, exprs, scs = [], [], []
+    for c in cases:
+        views, oracle, bad = run_lsoda_impl(c)
+        vals_ = []
+        for v in views:
+            vals_ += [v[2], v[3], v[4]]
+        for o in oracle:
+            vals_ += [o[0], o[1], o[2]] + list(o[3])
+        den = 1
+        for x in vals_:
+            den = max(den, Fraction(float(x)).denominator)
+        sc = (lambda d: (lambda x: int(Fraction(float(x)) * d)))(den)
+        ops = []
+        for op, o in zip(c["ops"], oracle):
+            if op[0] == "set":
+                ops.append("LSet %s" % cz(sc(op[1])))
+            else:
+                tri = "(%s, %s, %s)" % tuple(cz(sc(x)) for x in o[3])
+                ops.append("LMc %s %s %s %s %s" % (cz(sc(o[0])), cz(sc(o[1])), cz(sc(o[2])), tri, tri))
+        exprs.append("l_trace false l_new %s" % clist(ops))
+        exprs.append("l_trace true l_new %s" % clist(ops))
+        runs.append((views, oracle, bad))
+        scs.append(sc)
+    try:
+        vals = vlib.coq_eval_values("cases_C11l", LS_HEADER, exprs, chunk=100)
+    except RuntimeError as e:
+        ctx.violation("corr:C11:lsoda-model-eval", "coqc", "model evaluation failed",
+                      {"log": str(e)}, found_input=False)
+        return
+    agree = {"source": 0, "repaired_only": 0, "none": 0}
+    for i, (c, (views, oracle, bad), sc) in enumerate(zip(cases, runs, scs)):
+        def canon(v):
+            return [(x[0], x[1][0], x[1][1], x[1][2], x[1][3]) for x in vlib.parse_coq_value(v)]
+        msrc, mfix = canon(vals[2 * i]), canon(vals[2 * i + 1])
+        im = [(a, b, sc(c_), sc(d), sc(e)) for a, b, c_, d, e in views]
+        n = len(im)
+        numeric_edge = False
+        if bad and any(b.startswith("lsoda-failure") for b in bad):
+            # after lsoda reports a failure the fields hold whatever rwork holds:
+            # only the fact that the call raised is compared for that call
+            def same(m):
+                return im[:n - 1] == m[:n - 1] and len(m) >= n and m[n - 1][0] is True
+            a_src, a_fix = same(msrc), same(mfix)
+            if not a_src and not a_fix and im[:n - 1] == msrc[:n - 1]:
+                # a failure inside lsoda that the bookkeeping model does not
+                # produce: a forward request while the window is at rounding
+                # scale (first steps after a reset are ~1e-15 long)
+                v = views[n - 2] if n >= 2 else None
+                if v is not None and abs(v[3] - v[2]) <= 1e-8 * max(1.0, abs(v[3])):
+                    numeric_edge = True
+                    a_src = True
+        else:
+            a_src, a_fix = im == msrc[:n], im == mfix[:n]
+        ctx.count_case(("lsoda", json.dumps(c)), nontrivial=len(c["ops"]) >= 4)
+        ctx.cov["traces_validated_against_impl"] += 1
+        agree["source" if a_src else "repaired_only" if a_fix else "none"] += 1
+        if bad:
+            site, sig = "scipy_integrator.IntegratorScipylsoda.mcstep", bad[0].split(":")[0]
+            if numeric_edge:
+                site, sig = SITE_LSODA_PROBE, "forward-request-on-rounding-scale-window-illegal-input"
+            elif bad[0].startswith("lsoda-failure") and a_src and not a_fix:
+                site, sig = SITE_LSODA, "restart-at-window-back-then-illegal-input"
+            ctx.violation(site, sig, bad[0], {"kind": "lsoda", "case": c})
+        if not a_src and not a_fix:
+            first = next((j for j in range(min(n, len(msrc))) if im[j] != msrc[j]), 0)
+            ctx.violation("corr:scipy_integrator.IntegratorScipylsoda",
+                          bad[0].split(":")[0] if bad else "model-differs",
+                          "IntegratorScipylsoda and the window model disagree on a call history",
+                          {"kind": "lsoda", "case": c, "first_differing_op": first,
+                           "impl": [str(im[first])], "model": [str(msrc[first])]},
+                          found_input=bool(bad))
+    ctx.cov["lsoda_agreement"] = dict(agree, cases=len(cases))
+    ctx.sample({"lsoda_case": cases[0]})
+
+
 # ----------------------------- Solver call protocol (run/start/step/options)
 SV_HEADER = ("From Coq Require Import List ZArith Bool.\nImport ListNotations.\n"
              "From QV Require Import Model.C11_solver.\nOpen Scope Z_scope.\n")
@@ -1706,6 +1892,69 @@ def run_solver_impl(case):
     return pre, views, bad
 
 
+def sv_apply(solver, case, op):
+    """one operation of a protocol history on a real solver: (err, states)"""
+    from qutip import basis, ket2dm
+
+    def state(x):
+        return x * (basis(2, 0) if case["solver"] == "se" else ket2dm(basis(2, 0)))
+
+    def tag(q):
+        return int(round(q.full()[0, 0].real))
+    try:
+        if op[0] == "opts":
+            solver.options = sv_dict(op[1])
+        elif op[0] == "item":
+            solver.options[SV_KEYS[op[1]]] = sv_dict([(op[1], op[2])])[SV_KEYS[op[1]]]
+        elif op[0] == "start":
+            solver.start(state(op[1]), op[2])
+        elif op[0] == "step":
+            kw = {"args": {"k": op[2]}} if op[2] is not None else {}
+            return False, [tag(solver.step(op[1], **kw))]
+        elif op[0] == "run":
+            kw = {"args": {"k": op[4]}} if op[4] is not None else {}
+            r = solver.run(state(op[1]), [op[2]] + list(op[3]), **kw)
+            return False, [tag(q) for q in r.states]
+    except (KeyError, RuntimeError):
+        return True, []
+    return False, []
+
+
+def sv_fresh_equiv(case):
+    """C11_solver_fresh_solver_equivalent on the implementation: after the
+    first half of the history, a NEW solver built with the option values and
+    arguments in force and started at the same position must answer the second
+    half identically.  Returns None or a description."""
+    from qutip import Qobj, QobjEvo, basis, ket2dm
+    from qutip.solver.sesolve import SESolver
+    from qutip.solver.mesolve import MESolver
+    sv_classes()
+    Hd = Qobj(np.array([[1, 0], [0, 0]], dtype=complex))
+    cls = SESolver if case["solver"] == "se" else MESolver
+    A = cls(QobjEvo([[Hd, _coeff_k]], args={"k": case["w0"]}), options=sv_dict(case["init"]))
+    half = len(case["ops"]) // 2
+    w = case["w0"]
+    for op in case["ops"][:half]:
+        err, _ = sv_apply(A, case, op)
+        if op[0] in ("step", "run") and op[-1] is not None and not err:
+            w = op[-1]
+    I = A._integrator
+    if not I._is_set:
+        return None
+    t, y = I.get_state()
+    x = int(round(y.to_array()[0, 0].real))
+    opts = {k: A.options[k] for k in ["method", "store_final_state", "normalize_output"]
+            + list(I.integrator_options)}
+    B = cls(QobjEvo([[Hd, _coeff_k]], args={"k": w}), options=opts)
+    B.start(x * (basis(2, 0) if case["solver"] == "se" else ket2dm(basis(2, 0))), t)
+    for i, op in enumerate(case["ops"][half:]):
+        ra, rb = sv_apply(A, case, op), sv_apply(B, case, op)
+        if ra != rb:
+            return ("used solver answers %r, a new solver built with the values in force %r "
+                    "(operation %d of the history: %r)" % (ra, rb, half + i, op))
+    return None
+
+
 def sv_flow(o, w, t, t2, x):
     mid = SV_METH[o["method"]]
     keys = {1: ["atol", "rtol", "nsteps"], 2: ["atol", "order"], 3: ["rtol", "first_step"]}[mid]
@@ -1831,7 +2080,15 @@ def solver_protocol_part(ctx, rng, only=None):
                        "impl": [str(im[first])] if first < len(im) else None,
                        "model": [str(model[first])] if first < len(model) else None},
                       found_input=bool(bad))
-    ctx.cov["solver_protocol_agreement"] = {"cases": len(cases), "agree": agree}
+    nfe = 0
+    for c in cases:
+        why = sv_fresh_equiv(c)
+        nfe += 1
+        if why:
+            ctx.violation("solver_base.Solver:protocol", "differs-from-new-solver", why,
+                          {"kind": "solverproto", "case": c})
+    ctx.cov["solver_protocol_agreement"] = {"cases": len(cases), "agree": agree,
+                                            "fresh_solver_equivalence_checked": nfe}
     ctx.sample({"solver_protocol_case": cases[0]})
 
 
@@ -2186,18 +2443,31 @@ def run_memo_stability_case(case):
             H = Qobj(H0) if not case["td"] else QobjEvo([Qobj(H0), [Qobj(H1), _coeff_w]],
                                                        args={"w": 1})
             c_ops = [Qobj(C)] if case["me"] else None
-            return Propagator(H, c_ops=c_ops, options={"method": case["method"]},
-                              memoize=case["memoize"])
+            opt = {"method": case["method"]}
+            if case["method"] != "diag":
+                # tight integration tolerances: the comparisons to tolerance below
+                # (recomputed entries, new objects) are then far from 1e-5
+                opt.update({"atol": 1e-11, "rtol": 1e-9})
+            return Propagator(H, c_ops=c_ops, options=opt, memoize=case["memoize"])
         P = mk()
         first = {}
         for (t, ts) in case["qs"]:
+            # answered from the memo?  (every time it needs is still stored)
+            need = [(t - ts) / 8.0] if (P.cte and ts) else ([t / 8.0, ts / 8.0] if ts else [t / 8.0])
+            from_memo = all(any(abs(x - y) <= P.tol for y in P.times) for x in need)
             U = P(t / 8.0, ts / 8.0)
             M = U.full().copy()
             key = (t, ts)
-            if key in first and not np.array_equal(first[key], M):
-                bad.append(("memo-entry-changed",
-                            "P(%g, %g) asked again returns a matrix %.3g away from the one first "
-                            "returned" % (t / 8.0, ts / 8.0, float(np.abs(first[key] - M).max()))))
+            if key in first:
+                d = float(np.abs(first[key] - M).max())
+                # bitwise while the entry is still stored; after an eviction the
+                # propagator is legitimately recomputed from another memo point
+                if (from_memo and d != 0.0) or d > 1e-5:
+                    bad.append(("memo-entry-changed",
+                                "P(%g, %g) asked again (%s) returns a matrix %.3g away from the "
+                                "one first returned" % (t / 8.0, ts / 8.0,
+                                                        "still in the memo" if from_memo
+                                                        else "recomputed after eviction", d)))
             first.setdefault(key, M)
             # aliasing invariant
             st = P.solver._integrator.get_state(copy=False)[1]
@@ -2294,6 +2564,11 @@ def run(ctx):
         "from the observed run; zvode enters by its documented contract (interpolation within "
         "one step behind tcur, itask 5 takes one step not beyond tcrit); times VODE returns as tcrit "
         "within its 100-uround fuzz of rwork[12] are canonicalised to rwork[12] (counted in the evidence)",
+        "Model/C11_lsoda.v (IntegratorScipylsoda set_state / mcstep / _one_step / _backstep) is "
+        "hand-written; lsoda enters by its contract, its (tcur, hu, hcur) after a call and the two "
+        "float expressions fl(_front - rwork[11]) and the first target of _one_step are oracle "
+        "inputs taken from the observed run; histories whose windows are at rounding scale are "
+        "outside the exact bookkeeping (see known findings)",
         "fresh-vs-reused bitwise comparisons of real solvers are an implementation-level "
         "oracle (not a proof obligation); SciPy/LAPACK internals are outside; for krylov "
         "with krylov_dim < dimension the comparison is a validation with tolerance "
@@ -2325,6 +2600,7 @@ def run(ctx):
     special_state_part(ctx, rng)
     krylov_part(ctx, rng)
     zvode_part(ctx, rng)
+    lsoda_part(ctx, rng)
     solver_protocol_part(ctx, rng)
     stochastic_part(ctx, rng)
     ctx.cov["explanation"] = (
@@ -2388,6 +2664,8 @@ def replay(ctx, payload):
             if op[0] == "opts":
                 op[1] = [tuple(p) for p in op[1]]
         solver_protocol_part(ctx, random.Random(0), only=c)
+    elif kind == "lsoda":
+        lsoda_part(ctx, random.Random(0), only=d["case"])
     elif kind == "zvode":
         zvode_part(ctx, random.Random(0), only=d["case"])
     elif kind == "krylov":
